@@ -3,26 +3,27 @@ package main
 // Translation of contract expressions to SMT terms.
 
 import (
-	"golang.org/x/tools/go/ssa"
 	"fmt"
 	"go/token"
 	"go/types"
+	"golang.org/x/tools/go/ssa"
 	"math/big"
+	"os"
 	"strings"
 )
 
 type Env struct {
-	g       *FnGen
-	vars    map[string]Val
-	cur     *State
-	old     *State
-	pkg     *types.Package
-	pcs     []*PkgContracts // where to look up pure functions (callee's package first)
-	inOld   bool
-	depth   int
-	lookup  func(name string) (Val, bool) // extra resolver (locals)
-	at      *ssa.BasicBlock               // block the expression is evaluated at (loop header for invariants)
-	noAbs   bool                          // do not rewrite ranged quantifiers to absolute-index form
+	g      *FnGen
+	vars   map[string]Val
+	cur    *State
+	old    *State
+	pkg    *types.Package
+	pcs    []*PkgContracts // where to look up pure functions (callee's package first)
+	inOld  bool
+	depth  int
+	lookup func(name string) (Val, bool) // extra resolver (locals)
+	at     *ssa.BasicBlock               // block the expression is evaluated at (loop header for invariants)
+	noAbs  bool                          // do not rewrite ranged quantifiers to absolute-index form
 }
 
 func (e *Env) child() *Env {
@@ -617,7 +618,7 @@ func (e *Env) quant(n *EQuant) Val {
 					rngA := fmt.Sprintf("(and %s %s)", g.sle(g.add(off, lo), vname), g.slt(vname, g.add(off, hi)))
 					var qa string
 					if n.Forall {
-						qa = fmt.Sprintf("(forall ((%s %s)) (=> %s %s))", vname, sort, rngA, bodyA)
+						qa = mergeForall(vname, sort, rngA, bodyA)
 					} else {
 						qa = fmt.Sprintf("(exists ((%s %s)) (and %s %s))", vname, sort, rngA, bodyA)
 					}
@@ -668,6 +669,9 @@ func (e *Env) quant(n *EQuant) Val {
 	}
 	body := c.trBool(n.Body)
 	if n.Forall {
+		if n.Typ == "" {
+			return Val{T: mergeForall(vname, sort, rng, body), S: "Bool", GT: types.Typ[types.Bool]}
+		}
 		return Val{T: fmt.Sprintf("(forall ((%s %s)) (=> %s %s))", vname, sort, rng, body), S: "Bool", GT: types.Typ[types.Bool]}
 	}
 	return Val{T: fmt.Sprintf("(exists ((%s %s)) (and %s %s))", vname, sort, rng, body), S: "Bool", GT: types.Typ[types.Bool]}
@@ -1180,4 +1184,48 @@ func (e *Env) topParts(x Expr) []topPart {
 		}
 	}
 	return []topPart{{T: e.trBool(x)}}
+}
+
+// mergeForall: (forall ((v S)) (=> rng (forall (B...) (=> rng2 body)))) is written with one binder list
+// (forall ((v S) B...) (=> (and rng rng2) body)): the back ends then pick multi-patterns over both variables, which is far more
+// robust for pairwise facts such as sortedness than two nested single-variable quantifiers.
+func mergeForall(v, sort, rng, inner string) string {
+	const pre = "(forall ("
+	if os.Getenv("GOVC_NOMERGE") == "" && strings.HasPrefix(inner, pre) && !strings.Contains(inner, ":pattern") {
+		// find the end of the binder list
+		depth, i := 1, len(pre)
+		for ; i < len(inner) && depth > 0; i++ {
+			switch inner[i] {
+			case '(':
+				depth++
+			case ')':
+				depth--
+			}
+		}
+		binders := inner[len(pre) : i-1]
+		rest := strings.TrimSpace(inner[i : len(inner)-1])
+		if strings.HasPrefix(rest, "(=> ") {
+			// split "(=> A B)" at the top level
+			j, d := 4, 0
+			for ; j < len(rest); j++ {
+				if rest[j] == '(' {
+					d++
+				} else if rest[j] == ')' {
+					d--
+					if d == 0 {
+						j++
+						break
+					}
+				} else if rest[j] == ' ' && d == 0 {
+					break
+				}
+			}
+			a := strings.TrimSpace(rest[4:j])
+			b := strings.TrimSpace(rest[j : len(rest)-1])
+			if a != "" && b != "" {
+				return fmt.Sprintf("(forall ((%s %s) %s) (=> (and %s %s) %s))", v, sort, binders, rng, a, b)
+			}
+		}
+	}
+	return fmt.Sprintf("(forall ((%s %s)) (=> %s %s))", v, sort, rng, inner)
 }
